@@ -540,7 +540,7 @@ def gen_curve_case(rng, noise_free=False, model=None, yscale=None):
         if any(abs(ref_slope(model, truth, x)) < 0.05 * scale for x in xs):
             case["yerr"] = scale / 16.0
     if rng.random() < 0.25 and n >= nparams_of(case) + 4:
-        case["xrange"] = gen_xrange(rng, xs, nparams_of(case) + 1)
+        case["xrange"] = gen_xrange(rng, xs, nparams_of(case) + 2)   # curve fits keep two spare points inside the range (the optimiser is an oracle)
     add_dimensions(rng, case)
     if case["mode"] == "plot_fit" and case["xrange"] is not None:
         case["mode"] = "dataset_kw"
@@ -902,7 +902,7 @@ def gen_history(rng, curve=None):
             other = dict(reqs[0])
             r = rng.random()
             if r < 0.5 or curve:
-                other["xrange"] = gen_xrange(rng, base["xs"], npar) if base["xrange"] is None else None
+                other["xrange"] = gen_xrange(rng, base["xs"], npar + 1 if curve else npar) if base["xrange"] is None else None
             elif r < 0.75:
                 other.update(model="polynomial", deg=(base["deg"] % 3) + 1, degrees_kw=True)
                 other.pop("parnames", None)
